@@ -2489,6 +2489,7 @@ class Signature(object):
         """
         if isinstance(txid, bytes):
             txid = txid.hex()
+        txid = txid.lower()
         if len(txid) > 64:
             txid = double_sha256(bytes.fromhex(txid), as_hex=True)
         if not isinstance(private, (Key, HDKey)):
